@@ -4,6 +4,7 @@ import (
 	"fmt"
 	"go/token"
 	"go/types"
+	"sort"
 	"strings"
 
 	"golang.org/x/tools/go/ssa"
@@ -31,8 +32,35 @@ func init() {
 			{Name: "forwarded node info re-issued in the forwarder's name", ExpectRule: "C14.R2", ExpectKey: "floodNodeInfoEncrypted", Edits: []Edit{
 				{File: "internal/flood/flood.go", Old: "\tadv := &protocol.NodeInfoAdvertise{\n\t\tOriginAgent: originAgent,\n\t\tSequence:    sequence,\n\t\tEncInfo:     encInfo,\n\t\tSeenBy:      seenBy,", New: "\tadv := &protocol.NodeInfoAdvertise{\n\t\tOriginAgent: fromPeer,\n\t\tSequence:    sequence,\n\t\tEncInfo:     encInfo,\n\t\tSeenBy:      seenBy,"},
 			}},
+			{Name: "per-origin forward rate limiter armed by any copy (seed C14-a)", ExpectRule: "C14.R3", ExpectKey: "HandleRouteAdvertise", Edits: []Edit{
+				{File: "internal/flood/flood.go", Old: "\tseenCache map[AdvertisementKey]*SeenAdvertisement\n", New: "\tseenCache map[AdvertisementKey]*SeenAdvertisement\n\tlastFlood map[identity.AgentID]time.Time\n"},
+				{File: "internal/flood/flood.go", Old: "\tnewSeenBy := append(seenBy, f.localID)\n\tf.floodAdvertisementEncrypted(", New: "\tif !f.floodDue(originAgent) {\n\t\treturn true\n\t}\n\tnewSeenBy := append(seenBy, f.localID)\n\tf.floodAdvertisementEncrypted("},
+				{File: "internal/flood/flood.go", Old: "// HandleRouteWithdraw processes an incoming ROUTE_WITHDRAW frame.", New: "func (f *Flooder) floodDue(origin identity.AgentID) bool {\n\tnow := time.Now()\n\tf.mu.Lock()\n\tdefer f.mu.Unlock()\n\tif f.lastFlood == nil {\n\t\tf.lastFlood = map[identity.AgentID]time.Time{}\n\t}\n\tif last, ok := f.lastFlood[origin]; ok && now.Sub(last) < f.cfg.FloodInterval {\n\t\treturn false\n\t}\n\tf.lastFlood[origin] = now\n\treturn true\n}\n\n// HandleRouteWithdraw processes an incoming ROUTE_WITHDRAW frame."},
+			}},
+			{Name: "announcements older than the highest sequence seen from the origin dropped before the mark", ExpectRule: "C14.R3", ExpectKey: "HandleRouteAdvertise", Edits: []Edit{
+				{File: "internal/flood/flood.go", Old: "\tseenCache map[AdvertisementKey]*SeenAdvertisement\n", New: "\tseenCache map[AdvertisementKey]*SeenAdvertisement\n\thighest   map[identity.AgentID]uint64\n"},
+				{File: "internal/flood/flood.go", Old: "\t// Check if we've already seen this and mark as seen atomically\n\tf.mu.Lock()\n\tif existing, ok := f.seenCache[key]; ok {", New: "\t// Check if we've already seen this and mark as seen atomically\n\tf.mu.Lock()\n\tif f.highest == nil {\n\t\tf.highest = map[identity.AgentID]uint64{}\n\t}\n\tif sequence < f.highest[originAgent] {\n\t\tf.mu.Unlock()\n\t\treturn false\n\t}\n\tf.highest[originAgent] = sequence\n\tif existing, ok := f.seenCache[key]; ok {"},
+			}},
+			{Name: "withdrawals not forwarded while a wake command is pending", ExpectRule: "C14.R3", ExpectKey: "HandleRouteWithdraw", Edits: []Edit{
+				{File: "internal/flood/flood.go", Old: "\t// Flood withdrawal to other peers\n", New: "\tf.pendingWakeMu.RLock()\n\tbusy := f.pendingWakeCmd != nil\n\tf.pendingWakeMu.RUnlock()\n\tif busy {\n\t\treturn true\n\t}\n\t// Flood withdrawal to other peers\n"},
+			}},
+			{Name: "node info forwarded only when the seen cache is small", ExpectRule: "C14.R3", ExpectKey: "HandleNodeInfoAdvertise", Edits: []Edit{
+				{File: "internal/flood/flood.go", Old: "\t// Flood to other peers (forward encrypted data as-is)\n\tnewSeenBy := append(seenBy, f.localID)\n\tf.floodNodeInfoEncrypted(", New: "\tif f.NodeInfoSeenCacheSize() > 512 {\n\t\treturn true\n\t}\n\t// Flood to other peers (forward encrypted data as-is)\n\tnewSeenBy := append(seenBy, f.localID)\n\tf.floodNodeInfoEncrypted("},
+			}},
+			{Name: "local counter follows observed sequence numbers (seed C14-b)", ExpectRule: "C14.R4", ExpectKey: "ObserveSequence", Edits: []Edit{
+				{File: "internal/routing/manager.go", Old: "// RouteEntry is a simplified route for advertisements.", New: "func (m *Manager) ObserveSequence(seq uint64) {\n\tm.mu.Lock()\n\tdefer m.mu.Unlock()\n\tif seq > m.sequence {\n\t\tm.sequence = seq\n\t}\n}\n\n// RouteEntry is a simplified route for advertisements."},
+				{File: "internal/flood/flood.go", Old: "\t// Store display name for origin agent.\n", New: "\tf.routeMgr.ObserveSequence(sequence)\n\n\t// Store display name for origin agent.\n"},
+			}},
+			{Name: "node-info counter resynchronised from a received sequence", ExpectRule: "C14.R4", ExpectKey: "nodeInfoSeq", Edits: []Edit{
+				{File: "internal/flood/flood.go", Old: "\t// Store the node info in the routing manager (handles decryption if possible)\n", New: "\tif originAgent == f.localID {\n\t\tf.nodeInfoMu.Lock()\n\t\tf.nodeInfoSeq = sequence\n\t\tf.nodeInfoMu.Unlock()\n\t}\n\t// Store the node info in the routing manager (handles decryption if possible)\n"},
+			}},
+			{Name: "rewrite: forward skipped only by immutable configuration, counter bumped by two", Edits: []Edit{
+				{File: "internal/flood/flood.go", Old: "\t// Flood withdrawal to other peers\n", New: "\tif f.cfg.MaxSeenCacheSize < 0 {\n\t\treturn true\n\t}\n\t// Flood withdrawal to other peers\n"},
+				{File: "internal/routing/manager.go", Old: "\tdefer m.mu.Unlock()\n\tm.sequence++\n\treturn m.sequence\n", New: "\tdefer m.mu.Unlock()\n\tm.sequence = 2 + m.sequence\n\treturn m.sequence\n"},
+			}},
 			{Name: "rewrite: replay draws the counter only for the own origin, stored sequence otherwise", Edits: []Edit{
-				{File: "internal/flood/flood.go", Old: "\t\tseq := f.routeMgr.IncrementSequence()\n\n\t\tcidrRoutes := byOrigin[originAgent]\n", New: "\t\tcidrRoutes := byOrigin[originAgent]\n\t\tvar seq uint64\n\t\tif originAgent == f.localID {\n\t\t\tseq = f.routeMgr.IncrementSequence()\n\t\t} else {\n\t\t\tfor _, sr := range cidrRoutes {\n\t\t\t\tif sr.Sequence > seq {\n\t\t\t\t\tseq = sr.Sequence\n\t\t\t\t}\n\t\t\t}\n\t\t}\n"},
+				{File: "internal/flood/flood.go", Old: "\t\t\t\tOriginDisplayName: originDisplayName,\n\t\t\t\tSequence:          f.routeMgr.IncrementSequence(),\n", New: "\t\t\t\tOriginDisplayName: originDisplayName,\n\t\t\t\tSequence:          seq,\n"},
+				{File: "internal/flood/flood.go", Old: "\t\t// One advertisement carries at most maxRoutesPerMessage routes (one-byte count).\n\t\tfor start := 0; start < len(routes); start += maxRoutesPerMessage {\n\t\t\tend := start + maxRoutesPerMessage\n\t\t\tif end > len(routes) {\n\t\t\t\tend = len(routes)\n\t\t\t}\n\n\t\t\tadv := &protocol.RouteAdvertise{\n\t\t\t\tOriginAgent:       originAgent,", New: "\t\tvar seq uint64\n\t\tif originAgent == f.localID {\n\t\t\tseq = f.routeMgr.IncrementSequence()\n\t\t} else {\n\t\t\tfor _, sr := range cidrRoutes {\n\t\t\t\tif sr.Sequence > seq {\n\t\t\t\t\tseq = sr.Sequence\n\t\t\t\t}\n\t\t\t}\n\t\t}\n\t\t// One advertisement carries at most maxRoutesPerMessage routes (one-byte count).\n\t\tfor start := 0; start < len(routes); start += maxRoutesPerMessage {\n\t\t\tend := start + maxRoutesPerMessage\n\t\t\tif end > len(routes) {\n\t\t\t\tend = len(routes)\n\t\t\t}\n\n\t\t\tadv := &protocol.RouteAdvertise{\n\t\t\t\tOriginAgent:       originAgent,"},
 			}},
 			{Name: "rewrite: forwarded advertisement built in a helper", Edits: []Edit{
 				{File: "internal/flood/flood.go", Old: "\twithdraw := &protocol.RouteWithdraw{\n\t\tOriginAgent: originAgent,\n\t\tSequence:    sequence,\n\t\tRoutes:      routes,\n\t\tSeenBy:      seenBy,\n\t}\n", New: "\twithdraw := buildWithdraw(sequence, originAgent, routes, seenBy)\n"},
@@ -108,6 +136,8 @@ func c14CounterReads(p *kit.Program, c *c14Counters, v ssa.Value) []ssa.Instruct
 
 func runC14(p *kit.Program, r *kit.Report) {
 	r.Rule("C14.R1", "a Sequence drawn from this agent's own counter is placed only in an announcement whose OriginAgent is the local id (or the counter is read only under an origin == local id guard)")
+	r.Rule("C14.R3", "forwarding (and storing) of an announcement is not suppressed by mutable flooder state: apart from the seen-cache test itself, no branch of a receive entry point that skips the forward call may read (directly or in the flood functions it calls) a Flooder field that is written after construction — such state can be set by a relayed replay (the self-in-seen-by test and immutable configuration are fine)")
+	r.Rule("C14.R4", "the agent's own sequence counters have a single kind of writer: every store to routing.Manager's counter (and to the uint64 counters of Flooder) is an increment of that same field by a positive constant — never a value derived from received data")
 	r.Rule("C14.R2", "a forwarded announcement carries the OriginAgent and the Sequence/CommandID received by the entry point, unchanged")
 	cx := newC11Flood(p, r)
 	if cx == nil {
@@ -215,4 +245,62 @@ func runC14(p *kit.Program, r *kit.Report) {
 	}
 	r.Count("forwarded_message_literals", nFwd)
 	r.Require(nFwd >= 3, "floor: %d forwarded message literals reachable from the receive entry points, expected at least 3", nFwd)
+
+	// ---------------- R3
+	mutable := g4MutableFlooderFields(cx)
+	r.Count("mutable_flooder_fields", len(mutable))
+	nSkip := 0
+	for _, h := range cx.handlers {
+		d := c11FindDedup(cx, h)
+		if d == nil {
+			continue // C11.R1 reports the missing dedup
+		}
+		hn := kit.FuncName(h)
+		for _, sk := range g4SkipBranches(cx, h, d, true) {
+			nSkip++
+			key := fmt.Sprintf("%s forward-skipping branch #%d", hn, sk.ord)
+			pos := g4SkipPos(p, sk)
+			var deps []string
+			for _, c := range g4SkipConds(cx, h, d, sk, true) {
+				deps = append(deps, g4MutableStateDeps(cx, mutable, c)...)
+			}
+			deps = c12Uniq(deps)
+			r.Decide(len(deps) == 0, "C14.R3", key, pos,
+				"depends only on the frame and on immutable configuration",
+				"a first-seen announcement is stored but not forwarded depending on mutable flooder state ("+strings.Join(deps, ", ")+"): a relayed replay of the origin's routes can set that state, so the origin's next genuine announcement is not forwarded and the agents behind this one are never refreshed")
+		}
+	}
+	r.Count("forward_skipping_branches_after_seen_mark", nSkip)
+
+	// ---------------- R4
+	counters := []*types.Var{ctr.mgrField}
+	for f := range ctr.floodFlds {
+		counters = append(counters, f)
+	}
+	sort.Slice(counters, func(i, j int) bool { return counters[i].Name() < counters[j].Name() })
+	for _, f := range counters {
+		nW := 0
+		for _, acc := range p.FieldAccessesOfKind(f, kit.FieldStore, kit.FieldAddrUse) {
+			nW++
+			key := fmt.Sprintf("%s writer #%d of counter %s", kit.FuncName(acc.Fn), nW, f.Name())
+			ok := false
+			if acc.Kind == kit.FieldStore {
+				if k, isc := kit.ConstInt(acc.Val); isc && k == 0 {
+					ok = true
+				}
+				if b, isb := c13Strip(acc.Val).(*ssa.BinOp); isb && b.Op == token.ADD {
+					if k, isc := kit.ConstInt(b.Y); isc && k >= 1 && c11LoadsField(b.X, f) {
+						ok = true
+					}
+					if k, isc := kit.ConstInt(b.X); isc && k >= 1 && c11LoadsField(b.Y, f) {
+						ok = true
+					}
+				}
+			}
+			r.Decide(ok, "C14.R4", key, p.Pos(acc.Instr.Pos()),
+				"counter := counter + k (k>=1)",
+				"the local sequence counter is written with something other than its own increment: if the value follows sequence numbers received from the mesh, full-table replays are stamped with sequence numbers the origin has not issued yet, and the origin's genuine announcement with that number is then ignored as already seen and not forwarded")
+		}
+		r.Count("writers_of_"+f.Name(), nW)
+	}
 }
